@@ -17,13 +17,11 @@ pub fn layout_of(ty: &AirType) -> TypeLayout {
         AirType::Void => TypeLayout { size: 0, align: 1 },
         AirType::Slice(_) => TypeLayout { size: 16, align: 8 },
         AirType::Param(_) => TypeLayout { size: 8, align: 8 },
-        AirType::Array(inner, n) => {
-            let el = layout_of(inner);
-            TypeLayout {
-                size: el.size * (*n as u32),
-                align: el.align,
-            }
-        }
+        AirType::Array(inner, n) => array_layout(layout_of(inner), *n).unwrap_or_else(|| {
+            panic!(
+                "layout_of: array of {n} elements is too large: its size does not fit in 32 bits"
+            )
+        }),
         AirType::Struct(name) => {
             panic!("layout_of: Struct({name}) requires program context; run compute_layouts first")
         }
@@ -39,6 +37,8 @@ pub enum LayoutError {
     RecursiveCycle { names: Vec<String> },
     /// a struct used by value that is not defined
     UnresolvedStruct { name: String },
+    /// the size of `name`, or of one of its fields, does not fit in `u32`
+    TooLarge { name: String },
 }
 
 impl std::fmt::Display for LayoutError {
@@ -51,6 +51,10 @@ impl std::fmt::Display for LayoutError {
             LayoutError::RecursiveCycle { names } => {
                 write!(f, "recursive struct cycle: {}", names.join(" <-> "))
             }
+            LayoutError::TooLarge { name } => write!(
+                f,
+                "struct `{name}` is too large: its size does not fit in 32 bits"
+            ),
             LayoutError::UnresolvedStruct { name } => {
                 write!(
                     f,
@@ -100,9 +104,20 @@ pub fn try_compute_layouts(program: &mut AirProgram) -> Result<(), LayoutError> 
     Ok(())
 }
 
+/// `size_of(el) * n` in `u32`; `None` when it does not fit.
+fn array_layout(el: TypeLayout, n: u64) -> Option<TypeLayout> {
+    let size = u32::try_from((el.size as u64).checked_mul(n)?).ok()?;
+    Some(TypeLayout {
+        size,
+        align: el.align,
+    })
+}
+
+/// Layout of a field type of struct `owner`.
 fn resolved_layout(
     ty: &AirType,
     structs: &HashMap<String, TypeLayout>,
+    owner: &str,
 ) -> Result<TypeLayout, LayoutError> {
     match ty {
         AirType::Struct(name) => structs
@@ -110,11 +125,8 @@ fn resolved_layout(
             .copied()
             .ok_or_else(|| LayoutError::UnresolvedStruct { name: name.clone() }),
         AirType::Array(inner, n) => {
-            let el = resolved_layout(inner, structs)?;
-            Ok(TypeLayout {
-                size: el.size * (*n as u32),
-                align: el.align,
-            })
+            let el = resolved_layout(inner, structs, owner)?;
+            array_layout(el, *n).ok_or_else(|| too_large(owner))
         }
         other => Ok(layout_of(other)),
     }
@@ -129,22 +141,31 @@ fn struct_layout(
     let mut offsets = Vec::with_capacity(def.fields.len());
 
     for field in &def.fields {
-        let fl = resolved_layout(&field.ty, resolved)?;
-        offset = align_to(offset, fl.align);
+        let fl = resolved_layout(&field.ty, resolved, &def.name)?;
+        offset = align_to(offset, fl.align).ok_or_else(|| too_large(&def.name))?;
         offsets.push(offset);
-        offset += fl.size;
+        offset = offset
+            .checked_add(fl.size)
+            .ok_or_else(|| too_large(&def.name))?;
         max_align = max_align.max(fl.align);
     }
 
     let total = TypeLayout {
-        size: align_to(offset, max_align),
+        size: align_to(offset, max_align).ok_or_else(|| too_large(&def.name))?,
         align: max_align,
     };
     Ok((total, offsets))
 }
 
-fn align_to(offset: u32, align: u32) -> u32 {
-    (offset + align - 1) & !(align - 1)
+fn too_large(name: &str) -> LayoutError {
+    LayoutError::TooLarge {
+        name: name.to_string(),
+    }
+}
+
+/// Least multiple of `align` (a power of two) that is `>= offset`; `None` when it does not fit.
+fn align_to(offset: u32, align: u32) -> Option<u32> {
+    Some(offset.checked_add(align - 1)? & !(align - 1))
 }
 
 fn detect_self_references(structs: &[AirStructDef]) -> Result<(), LayoutError> {
